@@ -314,8 +314,9 @@ Proof. vm_compute. split; reflexivity. Qed.
 From BV Require Import Gen.During Proofs.During.
 
 (* The wrappers are two nested instances of plan_mutator (C21's verified machine) with list-inserting processors.
-   For EVERY wrapped plan and EVERY script that only sends (every message succeeds; any length), with enough fuel for the
-   machine's internal loop: the wrapper's trace is the two-fold EXPANSION of the wrapped plan -- [after] inserted behind
+   For EVERY wrapped plan and (this first theorem) EVERY script that only sends (every message succeeds; any length;
+   the theorem for all scripts follows below), with enough fuel for the machine's internal loop: the wrapper's trace
+   is the two-fold EXPANSION of the wrapped plan -- [after] inserted behind
    every open_run message object the plan yields for the first time, [before] in front of every close_run message
    object it yields for the first time (a message OBJECT yielded again passes bare: finding C23-c). *)
 Theorem C23_during_is_expansion :
@@ -357,6 +358,40 @@ Theorem C23_during_lists :
     (Forall (fun a => is_open view a = false) (fly_after mk devs) /\ Forall (fun a => is_close view a = false) (fly_before mk devs)).
 Proof. intros mk view H devs. split; [exact (monitor_lists_clean mk view H devs)|exact (fly_lists_clean mk view H devs)]. Qed.
 Print Assumptions C23_during_lists.
+
+(* EVERY script (any input kind, any length): the wrapper is `return (yield from <the two-fold expansion>)`, where the
+   expansion [exp_resume] is defined for all inputs (Gen/During.v).  Proved on C21's reference semantics of plan_mutator
+   and transported to the plan_mutator machine by C21's simulation (C21_plan_mutator_is_insert_spec's lemma). *)
+From BV Require Import Proofs.DuringFull.
+Theorem C23_during_is_expansion_full :
+  forall (P : Type) (resume : P -> input -> outcome P) (view : msg -> mview) (is_status : val -> bool)
+         (after before : list msg) (p : P) (s : list input) (fuel : nat),
+    Forall (fun a => is_open view a = false) after -> Forall (fun a => is_close view a = false) before ->
+    trace (during_resume resume view is_status (8 + fuel) after before) (during_init p) s
+    = trace (d_resume (exp_resume (exp_resume resume (ins_after view after)) (ins_before view before)))
+            (DStart (EStart (EStart p))) s.
+Proof. exact @during_is_expansion_full. Qed.
+Print Assumptions C23_during_is_expansion_full.
+
+(* ... in which an Exception kind thrown at ANY message of a block -- an inserted monitor / kickoff / wait / unmonitor /
+   complete / collect message or the plan's own open_run / close_run -- reaches the wrapped plan (the layer below) at
+   its original yield, and the rest of the block is dropped (so: a failure among the unmonitor / complete / collect
+   messages means the close_run does NOT leave; the plan sees the failure at its close_run) *)
+Theorem C23_expansion_throw :
+  forall (Q : Type) (qres : Q -> input -> outcome Q) (ins : msg -> option (list msg) * option (list msg)) x q seen e,
+    e_host_of x = Some (q, seen) -> is_GeneratorExit e = false -> is_Exception e = true ->
+    exp_resume qres ins x (Throw e) = e_host ins seen (qres q (Throw e)).
+Proof. exact @expansion_throw. Qed.
+Print Assumptions C23_expansion_throw.
+
+(* ... and close() / a GeneratorExit kind closes the wrapped plan and ends the wrapper; nothing is inserted *)
+Theorem C23_expansion_close :
+  forall (Q : Type) (qres : Q -> input -> outcome Q) (ins : msg -> option (list msg) * option (list msg)) x q seen,
+    e_host_of x = Some (q, seen) ->
+    exp_resume qres ins x Close = e_close qres q EGeneratorExit /\
+    forall e, is_GeneratorExit e = true -> exp_resume qres ins x (Throw e) = e_close qres q e.
+Proof. exact @expansion_close. Qed.
+Print Assumptions C23_expansion_close.
 
 (* non-vacuity: one run with two monitored signals *)
 Definition du_tbl : list mview := [VOpen; VCmd 0 0; VClose None None; VMonitor 0; VMonitor 1; VUnmonitor 0; VUnmonitor 1].
